@@ -1350,7 +1350,7 @@ class BaseRequest:
         def start_response(status, headers, exc_info=None):
             if exc_info is not None and not catch_exc_info:
                 etype, exc, tb = exc_info
-                raise etype(exc).with_traceback(tb)
+                raise exc.with_traceback(tb)
             captured[:] = [status, headers, exc_info]
 
             return output.append
